@@ -201,6 +201,9 @@ Theorem C02_payment_create_accept_iff : forall src ext samt tamt target s,
    coins_pos samt = true /\ coins_pos tamt = true /\ (coins_is_zero samt && coins_is_zero tamt) = false /\
    afind k2_eqb (src, ext) (pays s) = None /\
    forall d, 0 < amt_of samt d -> amt_of samt d <= spendable s src d).
+(* [ext] is ANY external id, the empty one included: a payment's key is (source, external id), so a
+   second payment of a source under an id that is still outstanding is refused -- it would
+   overwrite the record while its hold is added on top. *)
 Proof. exact pay_create_accept_iff. Qed.
 Print Assumptions C02_payment_create_accept_iff.
 
@@ -225,6 +228,53 @@ Theorem C02_cancel_accept_iff : forall signer priv id s,
    exists o, afind Z.eqb id (orders s) = Some o /\ (signer = o_owner o \/ priv = true)).
 Proof. exact cancel_accept_iff. Qed.
 Print Assumptions C02_cancel_accept_iff.
+
+(** Delegating (staking MsgDelegate -> bank DelegateCoins) is the one way an account's own funds
+    leave it without passing the ordinary locked-coins check: coins that are still VESTING may be
+    delegated, coins on HOLD may not.  A delegation of [v] of denom [d] is admitted iff
+    [0 < v <= balance - on hold]; it lowers the balance by [v], the vesting lock by [v] (not below
+    zero), and moves neither a hold nor a record -- so by [C02_inv_reachable] (which quantifies
+    over histories that contain delegations and passing time) hold = obligations <= balance
+    survives it. *)
+Theorem C02_delegate_accept_iff : forall a d v s,
+  (exists s', delegate a [(d, v)] s = Some s') <-> 0 < v /\ v <= bal_of s a d - hold_of s a d.
+Proof. exact delegate_one_iff. Qed.
+Print Assumptions C02_delegate_accept_iff.
+
+Theorem C02_delegate_effect : forall a d v s s',
+  delegate a [(d, v)] s = Some s' ->
+  bal_of s' a d = bal_of s a d - v /\ vlock_of s' a d = Z.max 0 (vlock_of s a d - v) /\
+  holds s' = holds s /\ orders s' = orders s /\ commits s' = commits s /\ pays s' = pays s.
+Proof. exact delegate_one_effect. Qed.
+Print Assumptions C02_delegate_effect.
+
+(** Non-vacuity for delegations and payments without an external id.  Account 1 owns 1000 of the
+    bond denom 10, of which 300 are still vesting; external id 9 stands for the EMPTY external id
+    (ids are interned, only equality matters).  An ask puts 600 on hold; delegating 401 is refused
+    (only 400 are not on hold) although 401 <= balance, delegating 400 is accepted although only
+    100 are spendable (the vesting coins may be delegated) and leaves balance 600 = hold; a first
+    payment without external id is accepted, a second one from the same source is refused while
+    the first is outstanding and accepted after it was cancelled. *)
+Example C02_witness_delegate :
+  let s0 := mk_state [] 0 [] [] [] [((1, 10), 1000); ((1, 20), 50); ((2, 20), 90)] [((1, 10), 300)] in
+  let ops :=
+    [ OCreate true (mk_order true 1 7 (10, 600) (20, 60) [] false) [];
+      ODelegate true 1 [(10, 401)];
+      ODelegate true 1 [(10, 400)];
+      OPayCreate true 2 9 [(20, 7)] [] 1;
+      OPayCreate true 2 9 [(20, 10)] [] 1;
+      OPayCancel true 2 [9];
+      OPayCreate true 2 9 [(20, 10)] [] 1 ] in
+  let at_ n := run s0 (firstn n ops) in
+  let results :=
+    fst (fold_left (fun x o => (fst x ++ [snd (step (snd x) o)], fst (step (snd x) o))) ops ([], s0)) in
+  results = [ROk; RRefused; ROk; ROk; RRefused; ROk; ROk] /\
+  spendable (at_ 1%nat) 1 10 = 100 /\
+  (bal_of (at_ 3%nat) 1 10, hold_of (at_ 3%nat) 1 10, vlock_of (at_ 3%nat) 1 10) = (600, 600, 0) /\
+  (hold_of (at_ 5%nat) 2 20, required (at_ 5%nat) 2 20) = (7, 7) /\
+  (hold_of (at_ 6%nat) 2 20, required (at_ 6%nat) 2 20) = (0, 0) /\
+  (hold_of (at_ 7%nat) 2 20, required (at_ 7%nat) 2 20) = (10, 10).
+Proof. vm_compute. repeat split. Qed.
 
 (** Non-vacuity: accounts 1 (seller), 2 (buyer), 3 (payer); denoms 10 (asset), 20 (price),
     30 (fee); market 7.  The start state has balances only, so the hypotheses of
